@@ -407,7 +407,17 @@ class _ReplaceNode(ast.NodeTransformer):
     def visit(self, node):
         if node is self.old:
             return self.new
-        return self.generic_visit(node)
+        node = self.generic_visit(node)
+        # f(*helper()) with the helper's returned tuple written out: f(a, b)
+        if isinstance(node, ast.Call) and any(isinstance(a, ast.Starred) and isinstance(a.value, (ast.Tuple, ast.List)) and not any(isinstance(x, ast.Starred) for x in a.value.elts) for a in node.args):
+            new = []
+            for a in node.args:
+                if isinstance(a, ast.Starred) and isinstance(a.value, (ast.Tuple, ast.List)) and not any(isinstance(x, ast.Starred) for x in a.value.elts):
+                    new.extend(a.value.elts)
+                else:
+                    new.append(a)
+            node.args = new
+        return node
 
 
 def _first_helper_call(expr, caller):
